@@ -235,9 +235,13 @@ func runC02(w *World, rng *rand.Rand, div int) {
 					r := &Run{w: w, txns: map[string]*Txn{}}
 					r.setup(baseData)
 					firstCommit := int32(-1)
+					prewriteIdx := map[int]bool{}
 					n := runVictim(w, r, sh, pess, func(idx int, req *tikvrpc.Request) Action {
 						if req.Type == tikvrpc.CmdCommit {
 							atomic.CompareAndSwapInt32(&firstCommit, -1, int32(idx))
+						}
+						if req.Type == tikvrpc.CmdPrewrite {
+							prewriteIdx[idx] = true
 						}
 						return Action{}
 					})
@@ -265,7 +269,10 @@ func runC02(w *World, rng *rand.Rand, div int) {
 						{
 							i, f, comp := pt.i, pt.f, pt.comp
 							cnt++
-							if (pi+int(rng.Int63()%int64(div)))%div != 0 {
+							// async commit over several regions, the client dying between its prewrites: always run (recovery has to tell a
+							// missing secondary from a locked one, whatever order the regions answer in)
+							must := cm.async && len(lay) == 3 && prewriteIdx[i]
+							if !must && (pi+int(rng.Int63()%int64(div)))%div != 0 {
 								continue
 							}
 							w.reset(M{"kind": "c02", "shape": sh.name, "pess": pess, "crash_idx": i, "crash": f, "companion": comp, "rpcs": n, "cmode": cm.name}, lay)
